@@ -146,6 +146,18 @@ func genInvalid(g *Rng, w *World, cfg map[string]any) []InvalidCase {
 			return append(l, map[string]any{"src": "@SRC@src/dup", "dst": "/usr/share/dup/"})
 		})
 	})
+	// dpkg-sig clear-signs with the primary key; a subkeys-only export (the
+	// primary secret key is a stub) cannot do that: signing must fail loudly
+	haveD := false
+	for _, e := range w.Tree {
+		haveD = haveD || e.Path == "keys/subonly.asc"
+	}
+	if !haveD {
+		w.Tree = append(w.Tree, TreeEntry{Path: "keys/subonly.asc", Kind: "file", KeyRef: "pgp_d.asc", Mode: 0o600, MTime: 1500000000})
+	}
+	mk("deb.signature.dpkg-sig.subkeys-only-key", []string{"deb"}, func(m map[string]any) {
+		subMap(m, "deb")["signature"] = map[string]any{"key_file": "@SRC@keys/subonly.asc", "method": "dpkg-sig"}
+	})
 	if contains(w.Signed, "deb") {
 		mk("deb.signature.type.invalid", []string{"deb"}, func(m map[string]any) {
 			s := subMap(subMap(m, "deb"), "signature")
